@@ -230,10 +230,17 @@ def encode_block_contents(entries, restarts_at, sharing=None):
 
 # ---------------------------------------------------------------- whole files
 def decode(path_or_bytes):
-    data = open(path_or_bytes, "rb").read() if isinstance(path_or_bytes, str) else bytes(path_or_bytes)
+    if isinstance(path_or_bytes, str):
+        import mmap, os as _os
+        if _os.path.getsize(path_or_bytes) == 0:
+            raise FormatError("shorter than the trailer")
+        _f = open(path_or_bytes, "rb")
+        data = mmap.mmap(_f.fileno(), 0, access=mmap.ACCESS_READ)      # huge sparse files are not read into memory
+    else:
+        data = bytes(path_or_bytes)
     if len(data) < TRAILER:
         raise FormatError("shorter than the trailer")
-    tr = data[-TRAILER:]
+    tr = bytes(data[len(data) - TRAILER:])
     magic = struct.unpack_from("<I", tr, TRAILER - 4)[0]
     if magic == MAGIC_V2:
         ver = 2
@@ -263,7 +270,7 @@ def decode(path_or_bytes):
         if p + 4 + n > len(data) - TRAILER:
             raise FormatError("block at %d overruns the trailer" % off)
         stored_crc = struct.unpack_from("<I", data, p)[0]
-        raw = data[p + 4:p + 4 + n]
+        raw = bytes(data[p + 4:p + 4 + n])
         blk = {"offset": off, "len_prefix": p - off, "stored_len": n, "stored_crc": stored_crc,
                "calc_crc": crc32c(raw), "end": p + 4 + n}
         contents = decompress(alg, raw) if compressed else raw
